@@ -1125,11 +1125,14 @@ func (d *indexData) newMatchTree(q query.Q, opt matchTreeOpt) (matchTree, error)
 
 	case *query.Branch:
 		masks := make([]uint64, 0, len(d.repoMetaData))
-		if s.Pattern == "HEAD" {
+		if s.Pattern == "HEAD" && !s.Exact {
 			for range d.repoMetaData {
 				masks = append(masks, 1)
 			}
 		} else {
+			// An exact query names the branch: the sharded searcher rewrites
+			// (branchesrepos HEAD ...) into an exact HEAD branch query, and
+			// BranchesRepos looks branches up by name.
 			for _, branchIDs := range d.branchIDs {
 				mask := uint64(0)
 				for nm, m := range branchIDs {
